@@ -1128,7 +1128,37 @@ func f1StableClass(g1 *sfnt.Font, hasPost, fromKern bool) string {
 
 // ---------------------------------------------------------------- generators
 
-var f1FamPool = []string{"Test", "Go Bold", "Lightning", "Semi Bold Sans", "Thin Mono", "", "Ünïcödé ©", "Black Extra Bold", "A-b_c (d)/[e]", "Normal Medium"}
+var f1FamPool = []string{"Emoji \U0001F600 Bold", "\U00010000\uFFFF", "Test", "Go Bold", "Lightning", "Semi Bold Sans", "Thin Mono", "", "Ünïcödé ©", "Black Extra Bold", "A-b_c (d)/[e]", "Normal Medium"}
+// strings outside the Basic Multilingual Plane (surrogate pairs in the Windows name records), at
+// the BMP boundaries, and BMP characters Mac Roman cannot carry
+var f1SpecialText = []string{"\U00010000", "\U00010001\U0001F600", "a\U0001F600b", "\U0010FFFF", "\uFFFF", "\uD7FF\uE000",
+	"x\uFFFFy\U00010000z", "\u1F00\u03B2\u2318 \u0416", "\U0001F600", "Emoji \U0001F600 Sans \U00010000"}
+
+// f1GenText draws one naming/licensing string; every field of a font draws independently.
+func f1GenText(c *Ctx) string {
+	r := c.Rng
+	switch r.Intn(12) {
+	case 0, 1, 2:
+		c.Stat("strings", "astral / BMP boundary / non-MacRoman")
+		return Pick(r, f1SpecialText)
+	case 3:
+		c.Stat("strings", "empty")
+		return ""
+	case 4:
+		unit := Pick(r, []string{"ab", "\u00e9", "\u65e5", "\U0001F600", "a\U00010000"})
+		k := r.Range(100, 300)
+		if c.Tier == "thorough" && r.Chance(1, 12) {
+			k = 12000 / len([]rune(unit)) // near the 64 KiB string storage of the name table, one field only
+			c.Stat("strings", "very long (12000 code points)")
+		} else {
+			c.Stat("strings", "long (100..600 code points)")
+		}
+		return strings.Repeat(unit, k)
+	}
+	c.Stat("strings", "pool")
+	return Pick(r, f1TextPool)
+}
+
 var f1TextPool = []string{"", "x", "Copyright © 2024 someone", "Hello, World!", "https://example.com/license", "Привет", "line\nbreak", "日本語 text", "a;b=c d"}
 var f1WeightPool = []int{0, 1, 100, 200, 300, 400, 500, 600, 700, 800, 900, 649, 650, 749, 750, 1000, 349, 350, 449, 450, 99, 101, 901, 65535}
 var f1MatrixPool = [][6]float64{{0.001, 0, 0, 0.001, 0, 0}, {0.001, 0, 0, 0.001, 0, 0}, {1.0 / 2048, 0, 0, 1.0 / 2048, 0, 0}, {0.0005, 0, 0, 0.0005, 0, 0}, {0.001, 0, 0.000167, 0.001, 0, 0}, {0.002, 0, 0, 0.002, 0, 0}}
@@ -1343,8 +1373,8 @@ func f1GenFont(c *Ctx) f1FontRecipe {
 		IsSerif: r.Chance(1, 3), IsScript: r.Chance(1, 4),
 		CodePageRange: os2.CodePageRange(r.U64() & Pick(r, []uint64{0, 1, 0x8000000000000003, ^uint64(0)})),
 		Version:       head.Version(ver), CreationTime: ct, ModificationTime: mt,
-		Description: Pick(r, f1TextPool), SampleText: Pick(r, f1TextPool), Copyright: Pick(r, f1TextPool),
-		Trademark: Pick(r, f1TextPool), License: Pick(r, f1TextPool), LicenseURL: Pick(r, f1TextPool),
+		Description: f1GenText(c), SampleText: f1GenText(c), Copyright: f1GenText(c),
+		Trademark: f1GenText(c), License: f1GenText(c), LicenseURL: f1GenText(c),
 		PermUse: os2.Permissions(Pick(r, []int{0, 1, 2, 3, 0, 4, -1})), UnitsPerEm: upem, FontMatrix: fm,
 		Ascent: funit.Int16(f1GenI16(r)), Descent: funit.Int16(f1GenI16(r)), LineGap: funit.Int16(f1GenI16(r)),
 		CapHeight: funit.Int16(f1GenI16(r)), XHeight: funit.Int16(f1GenI16(r)),
@@ -1352,6 +1382,25 @@ func f1GenFont(c *Ctx) f1FontRecipe {
 		Outlines:  o,
 		CMapTable: f1BuildCmap(rcm, n),
 		Gdef:      f1BuildGdef(rgdef, n), Gsub: f1BuildGsub(rgsub, n), Gpos: f1BuildGpos(rgpos, n),
+	}
+	if r.Chance(1, 5) { // equal strings in several fields: shared string storage in the name table
+		t := f1GenText(c)
+		if len(t) > 2000 {
+			t = t[:0]
+		}
+		font.Description, font.Copyright, font.Trademark, font.License = t, t, t, t
+		if r.Bool() && t != "" {
+			font.FamilyName, font.SampleText = t, t
+		}
+		c.Stat("strings", "same string in 4-6 fields")
+	}
+	long := 0
+	for _, p := range []*string{&font.Description, &font.SampleText, &font.Copyright, &font.Trademark, &font.License, &font.LicenseURL} {
+		if len(*p) > 5000 {
+			if long++; long > 1 {
+				*p = "x" // the name table has 64 KiB of string storage
+			}
+		}
 	}
 	c.Stat("weight", fmt.Sprint(weight/50*50))
 	c.Stat("flags regular/bold", f1B01(font.IsRegular)+f1B01(font.IsBold))
